@@ -31,7 +31,7 @@ Expected(rec) == Q!Hits(rec.q, rec.corpus)
 \* (see module Query, "mode"); classification only
 ModeOf(run) ==
     IF run.eng = "scorch"
-    THEN [transp |-> TRUE, k1 |-> (run.score = "none"), k1f |-> TRUE, lmf |-> FALSE]
+    THEN [transp |-> TRUE, k1 |-> (run.score = "none" /\ run.loc = 0), k1f |-> TRUE, lmf |-> FALSE]
     ELSE [transp |-> FALSE, k1 |-> FALSE, k1f |-> FALSE, lmf |-> TRUE]
 
 \* "No matching live document is missed"
